@@ -72,11 +72,15 @@ func (p *Parser) consumeAreOrIs() (err error) {
 	defer p.tokens.Rollback(p.tokens.Position, &err)
 
 	t, err := p.tokens.Consume(TokenWord)
-	if err == nil && (t[0].Value == "are" || t[0].Value == "is") {
-		return
+	if err != nil {
+		return err
 	}
 
-	return err
+	if t[0].Value == "are" || t[0].Value == "is" {
+		return nil
+	}
+
+	return errors.New(`expected "are" or "is"`)
 }
 
 //   Statement := NamedStatement | UnnamedStatement
